@@ -16,8 +16,7 @@ from vf import kfacrun as K
 from vf.digest import kfac_state as _kfac_state
 
 F64 = torch.float64
-LAYERS = {'layers.0': ('0', 'column'), 'layers.2': ('2', 'row'),
-          'layers.4': ('4', 'column')}
+LAYERS = {'1': ('0', 'column'), '11': ('2', 'row'), '21': ('4', 'column')}
 
 
 def layers_of(cfg):
@@ -28,7 +27,8 @@ def layers_of(cfg):
 def ref_cfg(cfg):
     """The unsharded single-axis (data-parallel only) equivalent."""
     gm = cfg.get('gmodel', 'gpt2l')
-    return {'model': gm if cfg.get('bias', True) else gm + '-nb',
+    seq = f"@{cfg['seq']}" if cfg.get('seq') else ''
+    return {'model': (gm if cfg.get('bias', True) else gm + '-nb') + seq,
             'dtype': 'f32', 'batch': cfg.get('batch', 2),
             'world': cfg['dp'], 'seed': cfg.get('seed', 0),
             'kfac': {**{k: v for k, v in cfg['kfac'].items()
@@ -157,7 +157,8 @@ class GptRun:
         d = self.coord.data
         self.model.zero_grad()
         gm = cfg.get('gmodel', 'gpt2l')
-        x = R.batch_for(gm, cfg.get('batch', 2), torch.float32, d,
+        seq = f"@{cfg['seq']}" if cfg.get('seq') else ''
+        x = R.batch_for(gm + seq, cfg.get('batch', 2), torch.float32, d,
                         self.it, 0, cfg.get('seed', 0))
         out = self.model(x)
         if gm == 'gpt3l':
@@ -165,11 +166,15 @@ class GptRun:
             # slice of the full target; the shards' losses add up to the
             # mean-reduced loss of the unsharded model
             full = gptenv.SIZES[gm][3]
-            y = R.lattice((out.shape[0], full), 2, d, self.it, 0,
+            lead = tuple(out.shape[:-1])
+            y = R.lattice(lead + (full,), 2, d, self.it, 0,
                           seed=cfg.get('seed', 0)).to(out.dtype)
             s = full // self.mp
-            y = y[:, self.coord.model * s:(self.coord.model + 1) * s]
-            loss = ((out - y) ** 2).sum() / (out.shape[0] * full)
+            y = y[..., self.coord.model * s:(self.coord.model + 1) * s]
+            n_lead = 1
+            for v in lead:
+                n_lead *= v
+            loss = ((out - y) ** 2).sum() / (n_lead * full)
         else:
             loss = R.loss_fn(out, d, self.it, 0, cfg.get('seed', 0))
         loss = loss * cfg.get('loss_mult', 1.0)
